@@ -151,3 +151,54 @@ func indexYAML(urls ...string) []byte {
 }
 
 func yamlQuote(s string) string { return "'" + strings.ReplaceAll(s, "'", "''") + "'" }
+
+// ---------- round-4 additions ----------
+
+// bareRepoURL: the repository spelling without any path and without trailing
+// slash (http://repo.test) -- the only form whose text can be EXTENDED into
+// another authority.
+func bareRepoURL(repoURL string) string { return strings.TrimSuffix(repoURL, repoPath) }
+
+// extensionCharts: the absolute chart URLs that textually extend a bare
+// repository URL into another authority -- another port, the whole repository
+// authority demoted to userinfo, a longer host name -- plus two controls on the
+// repository's own origin.  Unparsable results (repository already has a port, ...)
+// are dropped and counted.
+func extensionCharts(bare string) (out []string, dropped int) {
+	for _, c := range []string{bare + ":8443/charts/x.tgz", bare + "@evil.test/charts/x.tgz", bare + ".evil.test/charts/x.tgz"} {
+		if !parses(c) {
+			dropped++
+			continue
+		}
+		out = append(out, c)
+	}
+	out = append(out, bare+"/charts/x.tgz", "x.tgz")
+	return
+}
+
+// neighbours: all spellings that differ from sp in exactly one of scheme, host,
+// port, userinfo, plus sp itself.
+func neighbours(sp spelling) []spelling {
+	out := []spelling{sp}
+	for s := range schemes {
+		if s != sp.s {
+			out = append(out, spelling{s, sp.h, sp.p, sp.u})
+		}
+	}
+	for h := range hosts {
+		if h != sp.h {
+			out = append(out, spelling{sp.s, h, sp.p, sp.u})
+		}
+	}
+	for p := range ports {
+		if p != sp.p {
+			out = append(out, spelling{sp.s, sp.h, p, sp.u})
+		}
+	}
+	for u := range userinfos {
+		if u != sp.u {
+			out = append(out, spelling{sp.s, sp.h, sp.p, u})
+		}
+	}
+	return out
+}
